@@ -140,6 +140,8 @@ def step (_ : Unit) (j : Json) : Except String (Unit × Drv.Out) := do
       | .ok v, _ => o := o.diff s!"{typ} decode({text.quote}): impl={res} model=ok {(valJ v).compress}"
       | .error e, _ => o := o.diff s!"{typ} decode({text.quote}): impl={res} model=error({e})"
       -- decode-encode-decode, judged on the implementation's own results whatever the model says of the text
+      if res == "ok" && fldD out "againRawDiffers" == .bool true then
+        o := o.mon "roundtrip" "dec-enc-dec" s!"{typ}: decode-encode-decode of {text.quote} differs from decode in the raw bytes of a string (one of them is not valid UTF-8)"
       if res == "ok" then
         match fldD out "again" with
         | .null => o := o.mon "roundtrip" "dec-enc-dec.fail" s!"{typ}: re-encoding the decoded value of {text.quote} does not decode"
@@ -168,6 +170,19 @@ def step (_ : Unit) (j : Json) : Except String (Unit × Drv.Out) := do
     match decodeAs typ mt with
     | .ok mv => if canonV mv != canonV v then o := o.diff s!"{typ}: model round trip differs: {(valJ mv).compress}"
     | .error e => o := o.diff s!"{typ}: model cannot decode its own encoding ({e})"
+    pure ((), o)
+  | "rawdec" =>
+    let typ ← strF j "type"
+    let res ← strF out "res"
+    let mut o : Drv.Out := { nontrivial := true }
+    o := o.tag s!"rawdec.{res}"
+    if res == "panic" then
+      o := o.mon "nopanic" "decode.panic" s!"decoding bytes {(fldD j "hex").compress} as {typ} panicked"
+    if res == "ok" then
+      if fldD out "againFails" == .bool true then
+        o := o.mon "roundtrip" "dec-enc-dec.fail" s!"{typ}: re-encoding the decoded value of the bytes {(fldD j "hex").compress} does not decode"
+      if fldD out "againRawDiffers" == .bool true then
+        o := o.mon "roundtrip" "dec-enc-dec" s!"{typ}: decode-encode-decode of the bytes {(fldD j "hex").compress} (a text with an invalid UTF-8 byte inside a string) differs from decode: decode keeps the raw byte, the second decode has U+FFFD"
     pure ((), o)
   | "raw" =>
     let res ← strF out "res"
